@@ -339,7 +339,8 @@ func cmdCheck(args []string) int {
 				if ok {
 					witnessOK++
 				} else {
-					allInc = append(allInc, Inconclusive{Harness: hr.Harness, Reason: "translator validation: " + detail, Case: wt.Case})
+					tb, _ := json.Marshal(wt.Tape)
+					allInc = append(allInc, Inconclusive{Harness: hr.Harness, Reason: fmt.Sprintf("translator validation (pkg %s, tags %s, model %s): %s; tape %s", run.Pkg, run.Tags, run.Model, detail, tb), Case: wt.Case})
 				}
 			}
 			allInc = append(allInc, hr.Inconclusive...)
